@@ -203,6 +203,8 @@ struct St {
     finished: HashSet<TaskKey>,
     exited: bool,
     rx_eof: [bool; MAXC + 1],
+    /// the client was told to stop answering pings (Op::Mute): a silent client, which the heartbeat may reap
+    muted: [bool; MAXC + 1],
 }
 
 struct Ctx {
@@ -239,6 +241,9 @@ impl Ctx {
         let (i, t) = self.hb_us;
         if t == 0 || c < 1 || c as usize > MAXC {
             return true;
+        }
+        if g.muted[c as usize] {
+            return true; // silent by script: "disconnect ... only for closed or silent clients"
         }
         let now = self.now_us();
         let lg = g.loop_gaps.longest(now, 3 * t);
@@ -1065,6 +1070,8 @@ enum Op {
     SyncVolley(usize),
     /// n messages and the Close frame in one write
     VolleyClose(usize),
+    /// stop answering pings from now on
+    Mute,
 }
 
 #[derive(Clone, Debug)]
@@ -1112,6 +1119,10 @@ fn random_run(run: i64, rng: &mut Rng, maxclients: usize, kind: u8) -> RunOut {
     // deadwrite: client 1 vanishes (dropped or reset socket, no heartbeat); afterwards unicasts to it and
     //   broadcasts are flushed: the others get every broadcast exactly once, client 1 is disconnected once
     let deadwrite = kind == 4;
+    // rstexpiry: every client stops answering pings from the start and resets its connection at about the moment
+    //   its pong timeout expires (staggered over a few poll intervals): the read error and the heartbeat timeout of
+    //   one client fall into the same loop iteration now and then - it must still be disconnected exactly once
+    let rstexpiry = kind == 5;
     let mut nclients = rng.range(1, maxclients);
     let mut workers = *rng.pick(&[1usize, 1, 2, 2, 3, 4, 5, 6, 7, 8]);
     let mut poll = match rng.below(4) {
@@ -1164,6 +1175,16 @@ fn random_run(run: i64, rng: &mut Rng, maxclients: usize, kind: u8) -> RunOut {
         internal = rng.chance(1, 3);
         big = false;
     }
+    let rst_timeout_ms = 120u64;
+    if rstexpiry {
+        nclients = maxclients.max(2).min(6);
+        workers = *rng.pick(&[1usize, 2]);
+        poll = Some(Duration::from_millis(rng.range(6, 10) as u64));
+        hb_on = true;
+        heartbeat = Some((Duration::from_millis(40), Duration::from_millis(rst_timeout_ms)));
+        internal = rng.chance(1, 3);
+        big = false;
+    }
     let pol = |rng: &mut Rng, allow_uni: bool| -> Vec<String> {
         let n = *rng.pick(&[0usize, 1, 1, 1, 2]);
         (0..n).map(|_| if allow_uni && rng.chance(1, 2) { "uni".to_string() } else { "bc".to_string() }).collect()
@@ -1184,6 +1205,10 @@ fn random_run(run: i64, rng: &mut Rng, maxclients: usize, kind: u8) -> RunOut {
     }
     if deadwrite {
         policy = [vec![], vec![], vec!["bc".to_string()]];
+        hsleep_us = 0;
+    }
+    if rstexpiry {
+        policy = [vec![], vec![], vec![]];
         hsleep_us = 0;
     }
     let late_ms = rng.range(300, 600) as u64;
@@ -1269,6 +1294,12 @@ fn random_run(run: i64, rng: &mut Rng, maxclients: usize, kind: u8) -> RunOut {
                 end = EndOp::Stay;
             }
         }
+        if rstexpiry {
+            late = false;
+            // the pong timeout runs from the admission of the stream (within one poll interval of the handshake)
+            ops = vec![Op::Mute, Op::Sleep((rst_timeout_ms * 1000).saturating_sub(4000) + rng.below(22_000) as u64)];
+            end = EndOp::VanishRst;
+        }
         plans.push(json!({"c": id, "ops": format!("{:?}", ops), "end": format!("{:?}", end)}));
         let (ctx2, addrs2, failed2, live2) = (ctx.clone(), addrs.clone(), failed.clone(), live.clone());
         let (server_addr, path) = (server.addr, server.path);
@@ -1296,6 +1327,11 @@ fn random_run(run: i64, rng: &mut Rng, maxclients: usize, kind: u8) -> RunOut {
             for op in ops {
                 match op {
                     Op::Sleep(us) => sleep(Duration::from_micros(us)),
+                    Op::Mute => {
+                        // flag first, under the log mutex: a timeout logged from now on finds the client silent
+                        if (cl.id as usize) <= MAXC { ctx2.lock().muted[cl.id as usize] = true; }
+                        cl.quiet.store(true, Ordering::SeqCst);
+                    }
                     Op::Send { frags, pause_us } => cl.send(&ctx2, frags, pause_us, big),
                     Op::Burst(n) => {
                         for _ in 0..n {
@@ -1454,13 +1490,13 @@ fn random_run(run: i64, rng: &mut Rng, maxclients: usize, kind: u8) -> RunOut {
     RunOut {
         events,
         info: json!({"run": run, "clients": nclients, "workers": workers, "poll_us": poll.map(|d| d.as_micros() as i64).unwrap_or(-1),
-            "heartbeat": hb_on, "chatty": chatty, "bigpush": bigpush, "volley": volley, "deadwrite": deadwrite, "dead_by": if !deadwrite { "" } else if dead_rst { "rst" } else { "fin" }, "late_reader_ms": if bigpush { late_ms } else { 0 }, "internal_app": internal, "policy": policy, "hsleep_us": hsleep_us, "settled": settled, "early_shutdown": early,
+            "heartbeat": hb_on, "chatty": chatty, "bigpush": bigpush, "volley": volley, "deadwrite": deadwrite, "rstexpiry": rstexpiry, "dead_by": if !deadwrite { "" } else if dead_rst { "rst" } else { "fin" }, "late_reader_ms": if bigpush { late_ms } else { 0 }, "internal_app": internal, "policy": policy, "hsleep_us": hsleep_us, "settled": settled, "early_shutdown": early,
             "returned": returned, "plans": plans, "ext": nx}),
         setup_failed,
     }
 }
 
-fn random_mode(runs: usize, first: i64, maxclients: usize, special: [usize; 4]) {
+fn random_mode(runs: usize, first: i64, maxclients: usize, special: [usize; 5]) {
     let mut rng = Rng::new(seed_from_env() ^ (first as u64).wrapping_mul(0x9E37_79B9));
     let mut total = 0usize;
     let mut retried = 0usize;
@@ -1470,7 +1506,7 @@ fn random_mode(runs: usize, first: i64, maxclients: usize, special: [usize; 4]) 
     let mut hung = 0;
     // fail fast: after three runs in which run() did not return or a handler never ran, stop generating
     while total < runs && hung < 3 {
-        // the special scenarios come first: special[k-1] runs of kind k (1 chatty, 2 bigpush, 3 volley, 4 deadwrite)
+        // the special scenarios come first: special[k-1] runs of kind k (1 chatty, 2 bigpush, 3 volley, 4 deadwrite, 5 rstexpiry)
         let mut kind = 0u8;
         let mut acc = 0;
         for (k, n) in special.iter().enumerate() {
@@ -1838,7 +1874,7 @@ fn main() {
             let first: i64 = a.get(3).and_then(|s| s.parse().ok()).unwrap_or(1);
             let maxc: usize = a.get(4).and_then(|s| s.parse().ok()).unwrap_or(MAXC).min(MAXC).max(1);
             let sp = |i: usize| -> usize { a.get(i).and_then(|s| s.parse().ok()).unwrap_or(0) };
-            random_mode(runs, first, maxc, [sp(5), sp(6), sp(7), sp(8)])
+            random_mode(runs, first, maxc, [sp(5), sp(6), sp(7), sp(8), sp(9)])
         }
         Some("replay") => replay_mode(a.get(2).and_then(|s| s.parse().ok()).unwrap_or(3)),
         _ => {
